@@ -96,7 +96,27 @@ def build(case):
     return data, expected
 
 
+def pair_eval(case):
+    """TWO readers on two files (different index assignments) created one after the other and only then iterated: each
+    returns the rows of its own file"""
+    from cardutil import mciipm
+    built = [build(c) for c in case['pair']]
+    readers = [mciipm.IpmParamReader(io.BytesIO(d), c['table'], encoding=c['codec'], blocked=bool(c['b']),
+                                     expanded=bool(c['expanded'])) for (d, _), c in zip(built, case['pair'])]
+    why = None
+    obs = []
+    for i, (r, (_, expected)) in enumerate(zip(readers, built)):
+        rows, exc = read_all(r)
+        obs.append(f'{len(rows)}:{"eof" if exc is None else type(exc).__name__}')
+        if why is None and (exc is not None or rows != expected):
+            why = (f'reader {i + 1} of two created before either was iterated returned {len(rows)} rows '
+                   f'({"end of data" if exc is None else type(exc).__name__}); its own file holds {len(expected)} rows of the table')
+    return {'obs': 'ok ' + ' '.join(obs), 'violation': why, 'nontrivial': True, 'tags': ['two-readers']}
+
+
 def impl_eval(case):
+    if 'pair' in case:
+        return pair_eval(case)
     from cardutil import mciipm
     from cardutil.cli import mci_ipm_param_to_csv
     data, expected = build(case)
@@ -174,6 +194,8 @@ def impl_eval(case):
 
 
 def model_line(case):
+    if 'pair' in case:
+        return None
     data, _ = build(case)
     if case.get('layout'):
         cols = ','.join(f"{v['start']}:{v['end']}" for v in case['layout'].values())
@@ -223,4 +245,16 @@ def explore(run, tier):
                 cases.append(dict(base, expanded=expanded, notrailer=True))
                 cases.append(dict(base, expanded=expanded, table='IP0072T1'))
             cases.append(dict(base, expanded=(i // 10) % 2, cut=rng.randrange(1, 200)))
+    # two readers at the same time (state must belong to the reader, not to the class)
+    for i in range(12 if tier == 'quick' else 120):
+        pair = []
+        for j in range(2):
+            tables = rng.sample(configured, min(len(configured), 3))
+            pair.append({'seed': rng.getrandbits(40), 'tables': tables, 'nrows': 12, 'codec': ['latin_1', 'cp500'][(i + j) % 2],
+                         'b': (i + j) % 2, 'table': tables[0], 'expanded': 0})
+        # the SAME sub-ids assigned to the tables in the opposite order in the second file (same seed, tables reversed)
+        pair[1]['seed'] = pair[0]['seed']
+        pair[1]['tables'] = list(reversed(pair[0]['tables']))
+        pair[1]['table'] = pair[1]['tables'][0] if i % 2 else pair[0]['table']
+        cases.append({'pair': pair})
     run.correspond(__name__, cases, use_model=run.use_model, chunk=40)
